@@ -21,7 +21,10 @@ use std::pin::Pin;
 use std::sync;
 use std::sync::atomic::AtomicBool;
 use std::sync::Arc;
+#[cfg(not(undermoon_verif))]
 use tokio::net::TcpStream;
+#[cfg(undermoon_verif)]
+use crate::common::verif::SimStream as TcpStream;
 use tokio_util::codec::Decoder;
 
 // CmdReplyReceiver is the fast path without heap allocation.
